@@ -440,14 +440,13 @@ func setStructField(field reflect.Value, fieldType reflect.Type, isPtr bool, str
 }
 
 func setMapField(field reflect.Value, fieldType reflect.Type, isPtr bool, mapArr *array.Map, idx int) error {
+	// Note: fieldType is already dereferenced by the caller (setFieldFromArrow);
+	// dereferencing it again here took the map's VALUE type for the map type and
+	// made every *map[K]V field panic in reflect.MakeMapWithSize.
 	start, end := mapArr.ValueOffsets(idx)
 	keys := mapArr.Keys()
 	items := mapArr.Items()
 	length := int(end - start)
-
-	if isPtr {
-		fieldType = fieldType.Elem()
-	}
 
 	m := reflect.MakeMapWithSize(fieldType, length)
 	for j := 0; j < length; j++ {
